@@ -3,7 +3,7 @@ package vsync
 import (
 	"sync"
 
-	"github.com/whoisnian/glb/zzverif/vsched"
+	"verif/engine/shim/vsched"
 )
 
 // The less common parts of package sync, so that code using them still builds and is explored
